@@ -88,16 +88,37 @@ def poly(node: ast.AST, env: dict[str, ast.AST] | None = None, depth: int = 10) 
         if isinstance(op, (ast.BitAnd, ast.BitOr, ast.BitXor)):
             name = {ast.BitAnd: "and", ast.BitOr: "or", ast.BitXor: "xor"}[type(op)]
             ops: list[str] = []
+            consts: list[int] = []
 
             def flat(n: ast.AST) -> None:
                 if isinstance(n, ast.BinOp) and type(n.op) is type(op):
                     flat(n.left)
                     flat(n.right)
+                    return
+                c2 = const_int(n)
+                if c2 is None and isinstance(n, ast.UnaryOp) and isinstance(n.op, ast.Invert):
+                    inner = const_int(n.operand)
+                    c2 = ~inner if inner is not None else None
+                if c2 is not None:
+                    consts.append(c2)
                 else:
                     ops.append(show(poly(n, env, depth)))
 
             flat(node)
+            if consts:
+                folded = consts[0]
+                for c3 in consts[1:]:
+                    folded = folded & c3 if name == "and" else folded | c3 if name == "or" else folded ^ c3
+                # x & (2**k - 1) is x mod 2**k
+                if name == "and" and len(ops) == 1 and folded > 0 and (folded & (folded + 1)) == 0:
+                    return {(f"mod({ops[0]},{folded + 1})",): 1}
+                ops.append(str(folded))
             return {(f"{name}{{{','.join(sorted(ops))}}}",): 1}
+        if isinstance(op, ast.RShift):
+            sft = const_int(node.right)
+            if sft is not None and 0 <= sft < 64:
+                # x >> k is x // 2**k for integers
+                return {(f"fdiv({show(poly(node.left, env, depth))},{1 << sft})",): 1}
         fn = {ast.RShift: "shr", ast.FloorDiv: "fdiv", ast.Mod: "mod", ast.Div: "div", ast.Pow: "pow"}.get(type(op))
         if fn:
             return {(f"{fn}({show(poly(node.left, env, depth))},{show(poly(node.right, env, depth))})",): 1}
